@@ -165,6 +165,8 @@ NamesOfLen(n) ==
   {[comps |-> cs, seps |-> ss] : cs \in [1..n -> Comp],
      ss \in IF n <= MixedUpTo THEN [1..(n - 1) -> Seps] ELSE {[i \in 1..(n - 1) |-> sp] : sp \in Seps}}
 NameSpace(k) == UNION {NamesOfLen(n) : n \in 1..k}
+\* an extension header cannot carry the empty name (an empty PAX path record means "no override")
+TypedNames(k, types) == {x \in NameSpace(k) \X types : ~(x[2] = "xheader" /\ x[1].comps = <<"">>)}
 
 Entry(nm, ty, sz) == [comps |-> nm.comps, seps |-> nm.seps, type |-> ty, size |-> sz, short |-> FALSE, enc |-> "ustar"]
 ChartYamlSize == 64
@@ -214,13 +216,13 @@ ExtractLayouts == LayoutNames \ {"chartLink"}
 ExpandLayouts  == LayoutNames
 
 \* F1: one adversarial entry into a plugin directory
-CasesExtract == {CaseRec("extract1", "extract", <<Entry(nm, ty, 8)>>, l, <<>>, "", "") :
-                   nm \in NameSpace(MaxComps), ty \in Types, l \in ExtractLayouts}
+CasesExtract == {CaseRec("extract1", "extract", <<Entry(x[1], x[2], 8)>>, l, <<>>, "", "") :
+                   x \in TypedNames(MaxComps, Types), l \in ExtractLayouts}
 
 \* F2: a chart archive  top/Chart.yaml + one adversarial entry  expanded into dest
-CasesExpand == {CaseRec("expand1", "expand", <<ChartYamlEntry, Entry(nm, ty, IF ty \in {"reg", "xheader"} THEN 8 ELSE 0)>>,
+CasesExpand == {CaseRec("expand1", "expand", <<ChartYamlEntry, Entry(x[1], x[2], IF x[2] \in {"reg", "xheader"} THEN 8 ELSE 0)>>,
                         l, <<"chart">>, "", "") :
-                   nm \in NameSpace(MaxComps), ty \in Types, l \in ExpandLayouts}
+                   x \in TypedNames(MaxComps, Types), l \in ExpandLayouts}
 
 \* F2b: hostile chart NAME (Chart.yaml name: becomes the directory)
 ChartNames == {<<"..">>, <<"..", "..", "out", "d">>, <<"ABS", "out", "d">>, <<"chart", "..", "..", "out", "d">>, <<".">>,
@@ -231,12 +233,13 @@ CasesExpandName == {CaseRec("expandname", "expand", <<ChartYamlEntry, Entry(nm, 
                       cn \in ChartNames}
 
 \* F3: names exposed by a loaded chart
-CasesLoad == {CaseRec("load1", "load", <<ChartYamlEntry, Entry(nm, ty, IF ty \in {"reg", "xheader"} THEN 8 ELSE 0)>>,
+CasesLoad == {CaseRec("load1", "load", <<ChartYamlEntry, Entry(x[1], x[2], IF x[2] \in {"reg", "xheader"} THEN 8 ELSE 0)>>,
                       "empty", <<"chart">>, "", "") :
-                 nm \in NameSpace(MaxComps), ty \in Types}
+                 x \in TypedNames(MaxComps, Types)}
 
 \* F3s: sizes.  Chart.yaml (64 bytes) + up to 3 files; sizes around both limits
-SizeVals == {0, 64, TLim - ChartYamlSize - 2 * FLim - 1, TLim - ChartYamlSize - 2 * FLim, TLim - ChartYamlSize - 2 * FLim + 1,
+\* (Chart.yaml + one file of FLim bytes + one of TLim - 64 - FLim bytes hits the total limit exactly)
+SizeVals == {0, 64, TLim - ChartYamlSize - FLim - 1, TLim - ChartYamlSize - FLim, TLim - ChartYamlSize - FLim + 1,
              FLim - 1, FLim, FLim + 1, Huge}
 SizedEntry(i, sz, short, enc) ==
   [comps |-> <<"top", "f" \o ToString(i)>>, seps |-> <<"/">>, type |-> "reg", size |-> sz, short |-> short, enc |-> enc]
@@ -268,7 +271,7 @@ Start(c) ==
           touched |-> {}, err |-> FALSE],
    remaining |-> TLim, payload |-> 0,    \* size accounting of LoadArchiveFiles; payload bytes delivered
    cd |-> <<>>,                          \* Expand: the chart directory chosen by SecureJoin(dest, chart name)
-   res |-> "run", names |-> {}, kf |-> {}]
+   res |-> "run", names |-> {}]
 
 Fail(s)   == [s EXCEPT !.res = "err", !.pc = "done"]
 Finish(s) == [s EXCEPT !.res = "ok", !.pc = "done"]
@@ -315,7 +318,8 @@ StepExpandWrite(s) ==
             IF w1.err THEN Fail([s EXCEPT !.w = w1]) ELSE WithW(s, WriteAt(w1, o.p))
 
 \* --- Manager.Update: load the chart directory (links followed), pack the local dependency into
-\*     charts/, write the lock file with os.WriteFile (leaf link followed: lead L11)
+\*     charts/, then writeLock: a symlink at the lock path is refused (error, nothing written through it;
+\*     /repo fd0be70, lead L11), a regular file or no file is written in place
 LockName(api) == IF api = "v1" THEN "requirements.lock" ELSE "Chart.lock"
 LockFS(c) ==
   LET lp == Append(Dest, LockName(c.api))
@@ -331,10 +335,9 @@ StepLock(s) ==
   IF s.c.lock \in {"linkOutJunk", "linkOutDangling"} THEN Fail([s EXCEPT !.w.f = f])   \* LoadDir fails first
   ELSE LET w0 == [f |-> f, touched |-> {}, err |-> FALSE]
            w1 == MkdirAll(w0, <<"dest", "charts">>)
-           w2 == WriteAt(w1, <<"dest", "charts", "dep.tgz">>)
-           w3 == WriteAt(w2, lp)
-           esc == {x \in w3.touched : ~IsPrefixOf(Dest, x.p)} IN
-       Finish([s EXCEPT !.w = w3, !.kf = IF esc # {} THEN {"KF-L11-writelock-follows-symlink"} ELSE {}])
+           w2 == WriteAt(w1, <<"dest", "charts", "dep.tgz">>) IN
+       IF lp \in DOMAIN f /\ f[lp].t = "link" THEN Fail([s EXCEPT !.w = w2])
+       ELSE Finish([s EXCEPT !.w = WriteAt(w2, lp)])
 
 Step(s) ==
   CASE s.pc = "entries" /\ s.c.op = "extract" -> StepExtract(s)
@@ -357,10 +360,6 @@ Escaped(s)  == {x \in s.w.touched : ~IsPrefixOf(Dest, x.p)}
 Confined(s) == s.res = "err" \/ Escaped(s) = {}
 \* stronger form that the pinned design also satisfies: nothing outside even when the operation fails later
 ConfinedAlways(s) == Escaped(s) = {}
-\* the one recorded exception (DESIGN 2.5): the lock file written through a symlink planted at its path
-KnownL11(s) == /\ s.kf = {"KF-L11-writelock-follows-symlink"}
-               /\ s.c.op = "lock" /\ s.c.lock \in {"linkOutEmpty", "linkOutLock"}
-               /\ {x.p : x \in Escaped(s)} = {OutFile}
 \* (b) every exposed file name is a clean relative path
 NamesClean(s) == s.res # "ok" \/ s.c.op # "load" \/ \A n \in s.names : CleanRel(n)
 \* (c) oversize (declared or delivered, per file or in total) is rejected; payload delivered never passes the limit
@@ -390,9 +389,10 @@ Chart15(api, meta, vals, schema, lock, deps, declared, pc, cc) ==
 
 \* the round-trip family: every chart is valid; ops save->load and savedir->loaddir
 RoundTripCases ==
-  {Chart15(api, meta, vals, schema, lock, deps, declared, pc, cc) :
-     api \in {"v1", "v2"}, meta \in MetaClasses, vals \in ValueClasses, schema \in BOOLEAN, lock \in LockClasses,
-     deps \in DepShapes, declared \in BOOLEAN, pc \in PathClasses, cc \in ContentClasses}
+  {c \in {Chart15(api, meta, vals, schema, lock, deps, declared, pc, cc) :
+            api \in {"v1", "v2"}, meta \in MetaClasses, vals \in ValueClasses, schema \in BOOLEAN, lock \in LockClasses,
+            deps \in DepShapes, declared \in BOOLEAN, pc \in PathClasses, cc \in ContentClasses} :
+     c.declared => c.deps # "none"}
 
 \* files the directory loader always leaves out (ignore.Rules.AddDefaults: templates/.?*)
 DefaultIgnoredClass(pc) == pc = "tpldot"
@@ -413,7 +413,7 @@ InvalidCases == {[name |-> n, version |-> v, api |-> api] :
 \* names used by the fixed directory universe; Ext gives the extension class of a name
 IgnUniverseFiles ==
   {<<"Chart.yaml">>, <<"values.yaml">>, <<"templates", "t.yaml">>, <<"templates", ".dot">>, <<"README.md">>, <<"a.txt">>,
-   <<".hidden">>, <<"docs", "a.txt">>, <<"docs", "b.md">>, <<"docs", "sub", "c.txt">>, <<"sub", "docs", "d.txt">>,
+   <<".hidden">>, <<".helmignore">>, <<"docs", "a.txt">>, <<"docs", "b.md">>, <<"docs", "sub", "c.txt">>, <<"sub", "docs", "d.txt">>,
    <<"sub", "a.txt">>, <<"x", "y">>, <<"x", "z", "y">>, <<"charts", "dep", "Chart.yaml">>, <<"charts", "dep", "a.txt">>,
    <<"charts", "dep", "templates", "t.yaml">>}
 Ext(n) == CASE n \in {"a.txt", "c.txt", "d.txt"} -> "txt"
